@@ -134,7 +134,9 @@ fn probe(
                         );
                     }
                 }
-                other => out.violate(vkey, format!("correctly shaped buffer {shape:?} (a strided window) was not accepted: {other:?}"), cj()),
+                // whether a correctly shaped strided buffer is *accepted* is C13's statement
+                // ("accepted whatever its strides"), not C14's: only counted here
+                _ => out.count("correct_shape_window_not_accepted(C13 matter)", 1),
             }
         } else {
             out.nontrivial += 1;
